@@ -1640,7 +1640,7 @@ RCP<const Set> ImageSet::set_union(const RCP<const Set> &o) const
 
 RCP<const Set> ImageSet::set_intersection(const RCP<const Set> &o) const
 {
-    return SymEngine::set_intersection({rcp_from_this_cast<const Set>(), o});
+    return intersection_fallback(rcp_from_this_cast<const Set>(), o);
 }
 
 RCP<const Set> ImageSet::set_complement(const RCP<const Set> &o) const
